@@ -1083,8 +1083,9 @@ class C12(Property):
     trusted_base = [
         "zlib/gzip: streaming decompression is assumed to be a homomorphism on concatenation (Decomp.Lawful); the harness feeds the model the decompressed pieces its own decompressobj returns",
         "CPython: str.splitlines / bytes.decode / csv.reader / int() / float() / TextIOWrapper(newline=None) are modelled (splitlines, u8step, csvChar, universalNl) and the models are compared with them on every case",
-        "text->number conversion (float/int of a token) is CPython's on both sides; the model works on tokens",
-        "ARFF: the whole reader (attribute header, data section, encoders, missing flags, dense simple path + fallback parser, sparse rows) is modelled (`arffRead`) and compared with ArffReader on every ARFF case, errors included; Lean theorems cover the header, dense and sparse data lines and the respellings; str.lower is modelled on ASCII only, int()/float() acceptance by `parseInt`/`isFloatLit` (ASCII decimal literals, no underscores)",
+        "text->number conversion: ACCEPTANCE of a token by int()/float() and the integer value are modelled (parseIntPy / isFloatLitPy: ASCII literals, PEP 515 underscores, Py_ISSPACE stripping; non-ASCII decimal digits are not modelled) inside arffReadPy and libsvmReadPy; the float VALUE of an accepted literal is CPython's on both sides",
+        "phase 5 kinds: lit/undecided (comma-joined rows with tabs / quote characters inside through the fallback parser with _fallback_delim undecided: (A) vs arffAdvanced / arffLineStepF, (C) arff_fallback_undecided_exact / _iff), lit/svmnum (LibSVM/Manik lines whose indices and values are numeral spellings, repeated indices: (A) vs libsvmReadPy incl. dict order)",
+        "ARFF: the whole reader (attribute header, data section, encoders, missing flags, dense simple path + fallback parser, sparse rows) is modelled (`arffRead`) and compared with ArffReader on every ARFF case, errors included; Lean theorems cover the header, dense and sparse data lines and the respellings; str.lower is modelled on ASCII only, int()/float() acceptance by `parseIntPy`/`isFloatLitPy` inside `arffReadPy` (ASCII literals with PEP 515 underscores, Py_ISSPACE stripping; = the older `arffRead` on files free of `_` and \\x1c-\\x1f by theorem arffReadPy_conservative)",
         "reader objects: in the model a reader carries only its constructor arguments (ReaderKind); that the real CsvReader/ArffReader/LibsvmReader/ManikReader objects keep nothing else between inputs is checked by the `reuse` cases ((B) reused = fresh, (A) reused = readerRun)",
         "zlib: Decomp.Lawful (L1 empty input, L2 concatenation) is assumed of decompressobj.decompress; the harness checks on every chunk case that the returned pieces concatenate to the plain stream",
     ]
@@ -1290,7 +1291,7 @@ class C12(Property):
         return {"kind": "reuse", "fmt": fmt, "inputs": inputs, "abandon": abandon}
 
     def generate(self, rng, tier):
-        k = rng.wchoice([(21, "chunk"), (7, "delim"), (10, "disk"), (15, "csv"), (8, "svm"), (33, "arff"), (6, "reuse"), (5, "lit"), (4, "label")])
+        k = rng.wchoice([(21, "chunk"), (7, "delim"), (10, "disk"), (15, "csv"), (8, "svm"), (33, "arff"), (6, "reuse"), (5, "lit"), (4, "label"), (3, "undec"), (2, "svmnum")])
         return getattr(self, "gen_" + k)(rng, tier)
 
     # .................................................................. lit (phase 4): numerals as CPython reads them; plain rows on both dense paths
@@ -1321,8 +1322,147 @@ class C12(Property):
             vals.append(v)
         return {"kind": "lit", "sub": "plain", "values": vals, "pad": rng.choice([0, 0, 1, 2])}
 
+    # phase 5: comma-joined rows through the fallback parser with `_fallback_delim` undecided
+    def gen_undec(self, rng, tier):
+        n = rng.choice([1, 2, 2, 3, 3, 4])
+        style = rng.wchoice([(4, "quotes-inside"), (4, "tabs-inside"), (3, "both"), (2, "outside")])
+        vals = []
+        for i in range(n):
+            v = rng.choice("abz09.-?%{}:;") + "".join(rng.choice("abz019.-?%{} ") for _ in range(rng.randint(0, 3)))
+            if style in ("quotes-inside", "both") and rng.chance(0.7):
+                k = rng.randint(1, len(v))
+                v = v[:k] + rng.choice("'\"") + v[k:]
+            if style in ("tabs-inside", "both") and rng.chance(0.6):
+                k = rng.randint(1, len(v))
+                v = v[:k] + "\t" * rng.choice([1, 1, 2]) + rng.choice(["", "", "x", " '", "'", "\""]) + v[k:]
+            if style == "outside":
+                r = rng.below(6)
+                v = [v + "\\", " " + v, "\t" + v, "", "'" + v, v[:1] + "\\" + v[1:]][r]
+            vals.append(v)
+        if style == "quotes-inside" and n >= 2:      # make the first-row route reachable: both quote characters in the line
+            vals[0] = vals[0] + "'"
+            vals[-1] = vals[-1] + '"'
+        return {"kind": "lit", "sub": "undecided", "values": vals, "style": style}
+
+    def eval_undecided(self, case, driver):
+        from coba.pipes.readers import ArffLineReader
+        vals = case["values"]
+        n = len(vals)
+        line = ",".join(vals)
+        fails, tags = [], ["kind:lit-undecided", "undecided:" + case.get("style", "corpus")]
+
+        def run(f):
+            try:
+                return {"ok": [str(x) for x in f()]}
+            except Exception as e:
+                return {"err": errname(e)}
+        lr = ArffLineReader(True, n)
+        adv = run(lambda: lr._dense_advanced(line))                 # the fallback parser, delimiter undecided
+        delim = getattr(lr, "_fallback_delim", None)
+        first = run(lambda: ArffLineReader(True, n).filter(line))   # a fresh reader on the row as first data row
+        both = "'" in line and '"' in line
+        tags.append("undecided:first-row-" + ("enters-fallback" if both else "csv-first"))
+        tags.append("undecided:tabs-%s" % ("none" if "\t" not in line else ("fewer-than-values" if len(line.split("\t")) < n else "at-least-values")))
+        tags.append("undecided:read-back" if adv == {"ok": vals} else "undecided:not-read-back")
+        model = None
+        if driver is not None:
+            ans = driver.ask({"op": "undecided", "values": [cps(v) for v in vals]})
+            model = ans
+            madv, mfirst = self._lines_or_err(ans["adv"]), self._lines_or_err(ans["first"])
+            if uncps(ans["line"]) != line:
+                fails.append(F("A", "joinWith COMMA %r = %r, harness line %r" % (vals, uncps(ans["line"]), line), "A:undecided-line"))
+            if adv != madv:
+                fails.append(F("A", "ArffLineReader(True,%d)._dense_advanced(%r): implementation %r, model arffAdvanced %r" % (n, line, adv, madv), "A:undecided-fallback"))
+            if "ok" in adv and delim != (None if ans["delim"] is None else chr(ans["delim"])):
+                fails.append(F("A", "_fallback_delim after %r: implementation %r, model %r" % (line, delim, ans["delim"]), "A:undecided-delim"))
+            if first != mfirst:
+                fails.append(F("A", "ArffLineReader(True,%d).filter(%r): implementation %r, model arffLineStepF %r" % (n, line, first, mfirst), "A:undecided-first-row"))
+            if ans["unq"]:
+                tags.append("undecided:exact-theorem-applies")
+                if madv != self._lines_or_err(ans["pred"]):
+                    fails.append(F("C", "model: arffAdvanced %r, arff_fallback_undecided_exact predicts %r on %r" % (madv, ans["pred"], line), "C:arff_fallback_undecided_exact"))
+            if ans["hyp"]:
+                tags.append("undecided:iff-hypotheses-hold")
+                tags.append("undecided:iff-" + ("holds-both-true" if ans["rhs"] else "holds-both-false"))
+                if (madv == {"ok": vals}) != ans["rhs"]:
+                    fails.append(F("C", "model: arffAdvanced reads %r back = %r, right-hand side of arff_fallback_undecided_iff = %r" % (vals, madv == {"ok": vals}, ans["rhs"]), "C:arff_fallback_undecided_iff"))
+        return {"fails": fails, "nontrivial": True, "tags": tags, "impl": {"adv": adv, "first": first}, "model": model}
+
+    # phase 5: LibSVM / Manik lines whose indices and values are numeral spellings (int() / float() as CPython reads them)
+    INT_BODIES = ["0", "7", "12", "007", "1_0", "1__0", "_1", "1_", "+3", "-2", "3.0", "1e2", "0x10", "", "33", "1 ", "\x0b4", "5\x1c", "\u20036", "9_9_9"]
+
+    def gen_svmnum(self, rng, tier):
+        rows = []
+        good = rng.chance(0.5)          # half of the cases: only spellings CPython accepts (underscores, sign, white space incl.)
+        for _ in range(rng.randint(1, 2)):
+            items = []
+            used = []
+            for _ in range(rng.randint(1, 3)):
+                if good:
+                    k = rng.choice(["0", "7", "12", "007", "1_0", "+3", "9_9_9", "\x0b4", "\u20036", "3"]) if rng.chance(0.5) else str(rng.randint(0, 12))
+                else:
+                    k = rng.choice(self.INT_BODIES) if rng.chance(0.3) else str(rng.randint(0, 12))
+                if used and rng.chance(0.25):
+                    k = rng.choice(used)                      # a repeated index: dict semantics
+                used.append(k)
+                if good:
+                    v = rng.choice(["1", "0.5", "-2.25", "1e3", "nan", "inf", "3.", "1_0.5", "+.5", "1E+5", "-Infinity", "9_9.9_9", "1_0e1_0", "iNf"])
+                elif rng.chance(0.35):
+                    v = rng.choice(["", "", "+", "-"]) + rng.choice(self.NUM_BODIES)
+                else:
+                    v = rng.choice(["1", "0.5", "-2.25", "1e3", "nan", "inf", "3."])
+                if not good and rng.chance(0.1):
+                    v = rng.choice(["\x0b", "\x1c", "\t"]) + v
+                items.append([k, v])
+            rows.append({"labels": [rng.choice(["0", "1", "a", "-1", "x_y"]) for _ in range(rng.randint(1, 2))], "items": items})
+        return {"kind": "lit", "sub": "svmnum", "rows": rows, "manik": rng.chance(0.3)}
+
+    def eval_svmnum(self, case, driver):
+        from coba.pipes.readers import LibsvmReader, ManikReader
+        lines = [",".join(r["labels"]) + "".join(" %s:%s" % (k, v) for k, v in r["items"]) for r in case["rows"]]
+        if case["manik"]:
+            lines = ["3 4 5"] + lines
+        fails, tags = [], ["kind:lit-svmnum", "svmnum:" + ("manik" if case["manik"] else "libsvm")]
+        try:
+            rows = list((ManikReader() if case["manik"] else LibsvmReader()).filter(list(lines)))
+            impl = {"ok": [[[[k, float(v)] for k, v in r[0].items()], [str(l) for l in r[1]]] for r in rows]}
+        except Exception as e:
+            impl = {"err": errname(e)}
+        toks = [t for r in case["rows"] for kv in r["items"] for t in kv]
+        if any("_" in t for t in toks):
+            tags.append("svmnum:underscore")
+        if any("\x1c" in t for t in toks):
+            tags.append("svmnum:fs-char")
+        if any(len(set(k for k, _ in r["items"])) < len(r["items"]) for r in case["rows"]):
+            tags.append("svmnum:repeated-index")
+        tags.append("svmnum:" + ("accepted" if "ok" in impl else "raises-" + impl["err"]))
+        model = None
+        if driver is not None:
+            full = driver.ask({"op": "svm", "lines": [cps(l) for l in lines], "manik": case["manik"]})
+            model = self._svm_py(full["py"], ordered=True)
+            if self._nonan(impl) != self._nonan(model):
+                fails.append(F("A", "%sReader().filter(%r): implementation %r (items in dict order), model libsvmReadPy %r"
+                               % ("Manik" if case["manik"] else "Libsvm", lines, impl, model), "A:svmnum"))
+            if full["numok"]:
+                tags.append("svmnum:theorem-hypotheses-hold")
+        return {"fails": fails, "nontrivial": True, "tags": tags, "impl": impl, "model": model}
+
+    @staticmethod
+    def _nonan(x):
+        if isinstance(x, float) and x != x:
+            return "NaN"
+        if isinstance(x, list):
+            return [C12._nonan(y) for y in x]
+        if isinstance(x, dict):
+            return {k: C12._nonan(v) for k, v in x.items()}
+        return x
+
     def eval_lit(self, case, driver):
         from coba.pipes.readers import ArffReader, ArffLineReader
+        if case["sub"] == "undecided":
+            return self.eval_undecided(case, driver)
+        if case["sub"] == "svmnum":
+            return self.eval_svmnum(case, driver)
         fails, tags = [], ["kind:lit-" + case["sub"]]
         if case["sub"] == "num":
             tok = case["tok"]
@@ -1350,6 +1490,16 @@ class C12(Property):
                 tags.append("leading-plus")
             model = None
             if driver is not None:
+                # phase 5: the same numeral inside whole files through the whole-reader model `arffReadPy`:
+                # quoted dense numeric value, sparse numeric value, sparse index
+                files = [("dense-quoted", True, lines)]
+                if bare:
+                    files.append(("sparse-value", False, ["@attribute a numeric", "@attribute b numeric", "@data", "{1 " + tok + "}", "{0 2}"]))
+                    files.append(("sparse-index", False, ["@attribute a numeric", "@attribute b {x,y}", "@data", "{" + tok + " 3,1 x}"]))
+                    files.append(("dense-bare", True, ["@attribute a numeric", "@attribute b string", "@data", tok + ",s"]))
+                for nm, dn, fl in files:
+                    tags.append("numfile:" + nm)
+                    self._arff_read_model(fl, dn, run_arff(fl, dn), driver, fails, tags, sig="A:arff-read-numeral:" + nm)
                 ans = driver.ask({"op": "numlit", "tok": cps(tok)})
                 model = ans
                 want_f = {"ok": True} if ans["float"] else {"err": "ValueError"}
@@ -1485,6 +1635,18 @@ class C12(Property):
         return {"fails": fails, "nontrivial": True, "tags": tags, "impl": {"piped": got_p, "sim": got_s}, "model": None}
 
     @staticmethod
+    def _svm_py(x, ordered=False):
+        """the answer of `libsvmReadPy`: index ↦ float(text of an accepted literal), labels"""
+        if "err" in x:
+            return {"err": x["err"]}
+        try:
+            if ordered:
+                return {"ok": [[[[k, float(uncps(v))] for k, v in r["feats"]], [uncps(l) for l in r["labels"]]] for r in x["ok"]]}
+            return {"ok": [[{k: float(uncps(v)) for k, v in r["feats"]}, [uncps(l) for l in r["labels"]]] for r in x["ok"]]}
+        except ValueError as e:
+            return {"err": "model accepts a literal float() rejects: %s" % e}
+
+    @staticmethod
     def _lines_or_err(x):
         return {"err": x["err"]} if "err" in x else {"ok": [uncps(l) for l in x["ok"]]}
 
@@ -1501,7 +1663,10 @@ class C12(Property):
     GEN_DEFAULTS = {"numericTypes": ["numeric", "integer", "real"], "stringTypes": ["string", "date", "relational"],
                     "transDeleted": " \t\n\r\x0b\x0c", "sparseMissingIn": " ?,", "sparseMissingEnd": " ?}",
                     "sparseStripChars": "} {", "csvRstrip": "\r\n", "svmItemSep": " ", "svmNoLabelMark": ":",
-                    "svmLabelSep": ",", "svmKvSep": ":", "manikSkip": 1}
+                    "svmLabelSep": ",", "svmKvSep": ":", "manikSkip": 1,
+                    # phase 5: the fallback parser `ArffLineReader._dense_advanced`
+                    "fallbackThen": ",", "fallbackElse": "\t", "fallbackCountL": ",", "fallbackCountR": "\t",
+                    "fallbackDeleted": "\\", "fallbackGlue": ",", "fallbackStrict": True}
 
     @staticmethod
     def extract_reader_tables(src):
@@ -1571,6 +1736,29 @@ class C12(Property):
             if isinstance(n, ast.Call) and isinstance(n.func, ast.Name) and n.func.id == "islice" and len(n.args) == 3 \
                     and isinstance(n.args[1], ast.Constant) and isinstance(n.args[1].value, int) and isinstance(n.args[2], ast.Constant) and n.args[2].value is None:
                 t["manikSkip"] = n.args[1].value
+        # phase 5: `_dense_advanced`: `',' if len(line.split(',')) > len(line.split('\t')) else "\t"`, `item += "," + …`, `item.replace('\\','')`
+        adv = func("ArffLineReader", "_dense_advanced")
+
+        def len_split(n):
+            if isinstance(n, ast.Call) and isinstance(n.func, ast.Name) and n.func.id == "len" and len(n.args) == 1:
+                c = n.args[0]
+                if isinstance(c, ast.Call) and isinstance(c.func, ast.Attribute) and c.func.attr == "split" and len(c.args) == 1 \
+                        and isinstance(c.args[0], ast.Constant) and isinstance(c.args[0].value, str):
+                    return c.args[0].value
+            return None
+        for n in (ast.walk(adv) if adv else []):
+            if isinstance(n, ast.IfExp) and isinstance(n.body, ast.Constant) and isinstance(n.orelse, ast.Constant) \
+                    and isinstance(n.test, ast.Compare) and len(n.test.ops) == 1 and isinstance(n.test.ops[0], (ast.Gt, ast.GtE)):
+                l, r = len_split(n.test.left), len_split(n.test.comparators[0])
+                if l is not None and r is not None and isinstance(n.body.value, str) and isinstance(n.orelse.value, str):
+                    t["fallbackThen"], t["fallbackElse"], t["fallbackCountL"], t["fallbackCountR"] = n.body.value, n.orelse.value, l, r
+                    t["fallbackStrict"] = isinstance(n.test.ops[0], ast.Gt)       # `>` (strict) or `>=`
+            if isinstance(n, ast.AugAssign) and isinstance(n.op, ast.Add) and isinstance(n.value, ast.BinOp) and isinstance(n.value.op, ast.Add) \
+                    and isinstance(n.value.left, ast.Constant) and isinstance(n.value.left.value, str):
+                t["fallbackGlue"] = n.value.left.value
+            if isinstance(n, ast.Call) and isinstance(n.func, ast.Attribute) and n.func.attr == "replace" and len(n.args) == 2 \
+                    and all(isinstance(a, ast.Constant) and isinstance(a.value, str) for a in n.args) and n.args[1].value == "":
+                t["fallbackDeleted"] = n.args[0].value
         return t
 
     def pre_build(self):
@@ -1594,7 +1782,9 @@ class C12(Property):
                 + "def numericTypes : List (List Nat) := [%s]\n" % ", ".join(txt(x) for x in vals["numericTypes"])
                 + "def stringTypes : List (List Nat) := [%s]\n" % ", ".join(txt(x) for x in vals["stringTypes"])
                 + "".join("def %s : List Nat := %s\n" % (k, txt(vals[k])) for k in
-                          ("transDeleted", "sparseMissingIn", "sparseMissingEnd", "sparseStripChars", "csvRstrip", "svmItemSep", "svmNoLabelMark", "svmLabelSep", "svmKvSep"))
+                          ("transDeleted", "sparseMissingIn", "sparseMissingEnd", "sparseStripChars", "csvRstrip", "svmItemSep", "svmNoLabelMark", "svmLabelSep", "svmKvSep",
+                           "fallbackThen", "fallbackElse", "fallbackCountL", "fallbackCountR", "fallbackDeleted", "fallbackGlue"))
+                + "def fallbackStrict : Bool := %s\n" % ("true" if vals["fallbackStrict"] else "false")
                 + "def manikSkip : Nat := %d\n" % vals["manikSkip"]
                 + "def extracted : Bool := %s\n" % ("true" if not missing else "false")
                 + "end Coba.Generated.C12Readers\n")
@@ -1697,6 +1887,14 @@ class C12(Property):
             cs.append({"kind": "lit", "sub": "num", "tok": tok})
         for vals, pad in [(["a", "b"], 0), (["a b", "?", "{x}"], 1), (["\tx", "y"], 0), (["x\\", "y"], 0), (["", "y"], 2), (["%", "1.5", "é"], 2)]:
             cs.append({"kind": "lit", "sub": "plain", "values": vals, "pad": pad})
+        # phase 5: the fallback parser with `_fallback_delim` undecided (witnesses of arff_fallback_undecided_iff / _counterexample)
+        for vals in [["it's", 'say"hi'], ["a\tb", "c", "d"], ["a\tb", "c\td"], ["a\tb", "c"], ["a\\b", "c"], ["a\tb"], ["x"], ["a\t'b", "c", "d"],
+                     ["a", ""], [" a", "b"], ["a'", "b\t\"c", "d", "e"]]:
+            cs.append({"kind": "lit", "sub": "undecided", "values": vals, "style": "corpus"})
+        # phase 5: LibSVM numerals (witnesses of libsvm_numerals_counterexample)
+        for items in [[["1_0", "2"]], [["1__0", "2"]], [["3", "1e"]], [["3\x1c", "1"]], [["3", "1"], ["4", "2"], ["3", "9"]], [["+3", "nan"], ["007", "-inf"]], [["3", "1_0.5"]]]:
+            for manik in (False, True):
+                cs.append({"kind": "lit", "sub": "svmnum", "rows": [{"labels": ["1"], "items": items}], "manik": manik})
         return cs
 
     def exhaustive(self, tier):
@@ -2088,7 +2286,8 @@ class C12(Property):
                            "svm:%s:%s" % ("manik" if case["manik"] else "libsvm", sym)))
         model = None
         if driver is not None:
-            ans = driver.ask({"op": "svm", "lines": [cps(l) for l in got_lines["ok"]], "manik": case["manik"]})["rows"]
+            full = driver.ask({"op": "svm", "lines": [cps(l) for l in got_lines["ok"]], "manik": case["manik"]})
+            ans = full["rows"]
             if "err" in ans:
                 model = {"err": ans["err"]}
             else:
@@ -2098,6 +2297,14 @@ class C12(Property):
                     model = {"err": "ValueError"}
             if impl != model:
                 fails.append(F("A", "LibsvmReader: implementation %r, model %r" % (impl, model), "A:svm"))
+            # phase 5: the conversions inside the model (`libsvmReadPy` / `manikReadPy`: parseIntPy, isFloatLitPy, dict semantics)
+            mpy = self._svm_py(full["py"])
+            if impl != mpy:
+                fails.append(F("A", "LibsvmReader: implementation %r, model libsvmReadPy %r" % (impl, mpy), "A:svm-py"))
+            if full["numok"] and case["via"]["mode"] in ("lines", "keepends"):
+                tags.append("svm:numerals-theorem-hypotheses-hold")
+                if mpy != expected:
+                    fails.append(F("C", "model: libsvmReadPy(write rows) %r != written %r" % (mpy, expected), "C:libsvm_roundtrip_py"))
             if case["via"]["mode"] in ("lines", "keepends") and model != expected:
                 fails.append(F("C", "model: libsvmRead(write rows) != rows", "C:libsvm_roundtrip"))
         return {"fails": fails, "nontrivial": len(case["rows"]) >= 1, "tags": tags, "impl": impl, "model": model}
@@ -2147,7 +2354,17 @@ class C12(Property):
         """(A) the whole ArffReader (header, data section, encoders, missing flag, fallback parser, sparse rows)
         against the Lean model `arffRead` on the very lines coba got"""
         if ans is None:
-            ans = driver.ask({"op": "arffread", "lines": [cps(l) for l in lines]})["result"]
+            full = driver.ask({"op": "arffread", "lines": [cps(l) for l in lines]})
+            ans = full["result"]          # phase 5: `arffReadPy` (int()/float() as CPython reads them)
+            dirty = any(ch == "_" or "\x1c" <= ch <= "\x1f" for l in lines for ch in l)
+            tags.append("arffread:numerals-" + ("underscore-or-fs-in-file" if dirty else "clean-file"))
+            if full["clean"] != (not dirty):
+                fails.append(F("A", "linesNumClean(%r) = %r in the model, the harness sees %r" % (lines, full["clean"], not dirty), "A:arff-read-numclean"))
+            if full["clean"] and full["result"] != full["result0"]:
+                # theorem arffReadPy_conservative: on files without `_` and \x1c-\x1f the two models are one
+                fails.append(F("C", "model: arffReadPy %r differs from arffRead %r on the clean file %r" % (full["result"], full["result0"], lines), "C:arffReadPy_conservative"))
+            if full["result"] != full["result0"]:
+                tags.append("arffread:py-differs-from-old-model")
 
         def cell(c):
             if c[0] == "missing":
@@ -2179,8 +2396,18 @@ class C12(Property):
         else:
             got = {"ok": [{"cells": x["cells"], "missing": x["missing"]} for x in impl["ok"]]}
         tags.append("arffread:" + ("error" if "err" in model else "rows"))
+
+        def nonan(x):      # NaN is a legal numeric cell (`float('nan')`); make it comparable
+            if isinstance(x, float) and x != x:
+                return "NaN"
+            if isinstance(x, list):
+                return [nonan(y) for y in x]
+            if isinstance(x, dict):
+                return {k: nonan(v) for k, v in x.items()}
+            return x
+        got, model = nonan(got), nonan(model)
         if got != model:
-            fails.append(F("A", "ArffReader().filter(%r): implementation %r, Lean model arffRead %r" % (lines, got, model), sig))
+            fails.append(F("A", "ArffReader().filter(%r): implementation %r, Lean model arffReadPy %r" % (lines, got, model), sig))
 
     def _arff_header_model(self, case, lines, driver, fails, tags):
         """(A) the spec's header writer (AttrW.line) vs the harness writer, and (C) arff_header_roundtrip:
@@ -2422,6 +2649,16 @@ class C12(Property):
                 if len(rs) > 1:
                     yield dict(case, rows=rs[:i] + rs[i + 1:])
             return
+        if k == "lit" and case["sub"] == "svmnum":
+            rs = case["rows"]
+            for i in range(len(rs)):
+                if len(rs) > 1:
+                    yield dict(case, rows=rs[:i] + rs[i + 1:])
+                its = rs[i]["items"]
+                for j in range(len(its)):
+                    if len(its) > 1:
+                        yield dict(case, rows=rs[:i] + [dict(rs[i], items=its[:j] + its[j + 1:])] + rs[i + 1:])
+            return
         if k == "lit":
             if case["sub"] == "num":
                 t = case["tok"]
@@ -2430,7 +2667,7 @@ class C12(Property):
                         yield dict(case, tok=t[:i] + t[i + 1:])
             else:
                 vs = case["values"]
-                if case["pad"]:
+                if case.get("pad"):
                     yield dict(case, pad=0)
                 for i in range(len(vs)):
                     if len(vs) > 2:
@@ -2560,6 +2797,18 @@ class C12(Property):
         if k == "lit" and case["sub"] == "num":
             return ("from coba.pipes.readers import ArffReader\n"
                     "print(list(ArffReader().filter(['@attribute a numeric','@attribute b numeric','@data',%r]))[0][0])\n" % ("'" + case["tok"] + "',1"))
+        if k == "lit" and case["sub"] == "svmnum":
+            lines = [",".join(r["labels"]) + "".join(" %s:%s" % (a, b) for a, b in r["items"]) for r in case["rows"]]
+            if case["manik"]:
+                lines = ["3 4 5"] + lines
+            return ("from coba.pipes.readers import LibsvmReader, ManikReader\n"
+                    "print(list(%sReader().filter(%r)))\n" % ("Manik" if case["manik"] else "Libsvm", lines))
+        if k == "lit" and case["sub"] == "undecided":
+            n = len(case["values"])
+            line = ",".join(case["values"])
+            return ("from coba.pipes.readers import ArffLineReader\n"
+                    "print(ArffLineReader(True,%d)._dense_advanced(%r))   # fallback parser, _fallback_delim undecided\n"
+                    "print(ArffLineReader(True,%d).filter(%r))   # written: %r\n" % (n, line, n, line, case["values"]))
         if k == "lit":
             n = len(case["values"])
             line = ("," + " " * case["pad"]).join(case["values"])
